@@ -647,3 +647,68 @@ def interaction_programs(cfg, start_id=1, floats=False):
                     out.append({"id": pid, "cfg": cfg, "vars": ivars, "body": body})
                     pid += 1
     return out
+
+
+# ------------------------------------------------------------------------------------------------
+# C07: systematic loop nests with exits (flat label/goto form), independent of the seed
+
+def loopnest_programs(cfg, start_id=1):
+    """Two nested back-edges; one jump inside the inner body goes to every interesting place (after the inner
+    loop, after the outer loop, to either loop head, past a statement after the outer loop), as goto /
+    conditional goto / with an explicit time; back-edges conditional or counting; optional statements and time
+    labels between the pieces.  Every combination is generated."""
+    R, S = var(1000), var(1001)
+    out = []
+    pid = start_id
+    targets = ["after_inner", "after_outer", "outer_head", "inner_head", "past_outer"]
+    jump_kinds = ["cond", "goto", "cond_time"]
+    backs = [("cond", "cond"), ("count", "cond"), ("cond", "count"), ("goto", "cond")]
+    for tgt in targets:
+        for jk in jump_kinds:
+            for (inner_back, outer_back) in backs:
+                for filler in (0, 1, 2):
+                    for tl in (0, 1):
+                        lab = {"after_inner": "AI", "after_outer": "AO", "outer_head": "LO", "inner_head": "LI", "past_outer": "PO"}[tgt]
+                        body = []
+                        body.append({"k": "label", "name": "LO"})
+                        if tl:
+                            body.append({"k": "rel", "e": ilit(5)})
+                        body.append(call(101, [R]))
+                        body.append({"k": "label", "name": "LI"})
+                        if tl:
+                            body.append({"k": "rel", "e": ilit(5)})
+                        if filler >= 1:
+                            body.append({"k": "assign", "var": S, "op": "+=", "value": ilit(1)})
+                        j = {"k": "jump", "jump": "goto", "label": lab} if jk == "goto" else \
+                            {"k": "condjump", "kw": "if", "cond": binop("==", S, ilit(3)), "jump": "goto", "label": lab}
+                        if jk == "cond_time":
+                            j["time"] = 5
+                        body.append(j)
+                        body.append(call(101, [S]))
+                        def back(kind, reg, label):
+                            if kind == "cond":
+                                return {"k": "condjump", "kw": "if", "cond": binop("<", reg, ilit(3)), "jump": "goto", "label": label}
+                            if kind == "count":
+                                return {"k": "condjump", "kw": "if", "cond": {"k": "xcr", "op": "--", "order": "pre", "var": reg}, "jump": "goto", "label": label}
+                            return {"k": "jump", "jump": "goto", "label": label}
+                        if inner_back != "count":
+                            body.append({"k": "assign", "var": S, "op": "+=", "value": ilit(1)})
+                        body.append(back(inner_back, S, "LI"))
+                        body.append({"k": "label", "name": "AI"})
+                        if filler >= 2:
+                            body.append(call(100, []))
+                        if outer_back != "count":
+                            body.append({"k": "assign", "var": R, "op": "+=", "value": ilit(1)})
+                        body.append(back(outer_back, R, "LO"))
+                        body.append({"k": "label", "name": "AO"})
+                        if tl:
+                            body.append({"k": "rel", "e": ilit(10)})
+                        body.append(call(103, [R, S]))
+                        body.append({"k": "label", "name": "PO"})
+                        body.append(call(100, []))
+                        # unused labels are fine for the compiler; drop those nothing jumps to, to keep the shape tight
+                        used = {s.get("label") for s in body if s.get("label")}
+                        body = [s for s in body if not (s.get("k") == "label" and s["name"] not in used)]
+                        out.append({"id": pid, "cfg": cfg, "vars": [{"id": "r1000", "ty": "i"}, {"id": "r1001", "ty": "i"}], "body": body})
+                        pid += 1
+    return out
